@@ -4,10 +4,13 @@ package main
 
 import (
 	"context"
+	"errors"
 	"fmt"
 	"io"
+	"net"
 	"strings"
 	"sync/atomic"
+	"testing/iotest"
 	"time"
 
 	"tunnox-core/internal/protocol/session"
@@ -30,9 +33,12 @@ func execFw(toks []string) string {
 	up := genBytes(atoi(toks[4]), atoi(toks[5]))
 	down := genBytes(atoi(toks[7]), atoi(toks[8]))
 	cs, oi := parseSizes("cs", toks, 9)
-	ct, cl, ord := false, false, 0
-	if oi+3 < len(toks)+0 && toks[oi] == "opt" {
+	ct, cl, ord, le, re := false, false, 0, 0, false
+	if oi+3 < len(toks) && toks[oi] == "opt" {
 		ct, cl, ord = toks[oi+1] == "1", toks[oi+2] == "1", atoi(toks[oi+3])
+		if oi+5 < len(toks) {
+			le, re = atoi(toks[oi+4]), toks[oi+5] == "1"
+		}
 	}
 	resCh := make(chan string, 1)
 	var sent, recv, closes atomic.Int64
@@ -60,6 +66,18 @@ func execFw(toks []string) string {
 			defer close(fwdDone)
 			defer func() { recover() }()
 			cfg := &session.BidirectionalForwardConfig{TunnelID: string(me), LogPrefix: "verif", LocalConn: local, RemoteConn: F}
+			if le != 0 {
+				// a local connection that reports its end TOGETHER with its last bytes: (n > 0, io.EOF), or
+				// (n > 0, some other error) for le = 2 -- legal for an io.Reader (QUIC streams, gzip, DataErrReader)
+				var rd io.Reader = iotest.DataErrReader(local)
+				if le == 2 {
+					rd = eofAsError{rd}
+				}
+				cfg.LocalConn = &rwDouble{Reader: rd, w: local}
+			}
+			if re {
+				cfg.RemoteConn = &streamDouble{Reader: iotest.DataErrReader(F), s: F}
+			}
 			if ct {
 				cfg.BytesSentCounter, cfg.BytesReceivedCounter = &sent, &recv
 			}
@@ -151,9 +169,41 @@ func execFw(toks []string) string {
 	}
 }
 
+var errLocalRead = errors.New("verif: local read failed after the last bytes")
+
+// eofAsError turns the io.EOF a reader returns (with or without data) into another error.
+type eofAsError struct{ r io.Reader }
+
+func (e eofAsError) Read(p []byte) (int, error) {
+	n, err := e.r.Read(p)
+	if err == io.EOF {
+		err = errLocalRead
+	}
+	return n, err
+}
+
+// rwDouble: the local connection with a substituted read side.
+type rwDouble struct {
+	io.Reader
+	w *net.TCPConn
+}
+
+func (d *rwDouble) Write(p []byte) (int, error) { return d.w.Write(p) }
+func (d *rwDouble) Close() error                { return d.w.Close() }
+
+// streamDouble: the FrameStream with a substituted read side; still a HalfCloser.
+type streamDouble struct {
+	io.Reader
+	s *crossnode.FrameStream
+}
+
+func (d *streamDouble) Write(p []byte) (int, error) { return d.s.Write(p) }
+func (d *streamDouble) Close() error                { return d.s.Close() }
+func (d *streamDouble) CloseWrite() error           { return d.s.CloseWrite() }
+
 func genFw(r *vc.Rand, thorough bool) []caseLine {
 	var out []caseLine
-	rounds := 96
+	rounds := 144
 	if thorough {
 		rounds = 600
 	}
@@ -169,8 +219,9 @@ func genFw(r *vc.Rand, thorough bool) []caseLine {
 			cs = randSizes(r, ul, 10)
 		}
 		ct, cl, ord := i%2, (i/2)%2, (i/4)%2
-		text := fmt.Sprintf("fw me %s up %d %d down %d %d %s opt %d %d %d", vc.Hex(me), ul, r.Intn(256), dl, r.Intn(256), sizesStr("cs", cs), ct, cl, ord)
-		dk := fmt.Sprintf("%x/%d/%d/%v/%d%d%d", me, ul, dl, cs, ct, cl, ord)
+		le, re := (i/8)%3, (i/3)%2
+		text := fmt.Sprintf("fw me %s up %d %d down %d %d %s opt %d %d %d %d %d", vc.Hex(me), ul, r.Intn(256), dl, r.Intn(256), sizesStr("cs", cs), ct, cl, ord, le, re)
+		dk := fmt.Sprintf("%x/%d/%d/%v/%d%d%d%d%d", me, ul, dl, cs, ct, cl, ord, le, re)
 		if ul == 0 && dl == 0 {
 			dk = ""
 		}
